@@ -47,6 +47,7 @@ noncomputable instance realScalar : Scalar ℝ where
   pow := fun a b => a ^ b
   floor a := (⌊a⌋ : ℤ)
   ceil a := (⌈a⌉ : ℤ)
+  isnan _ := false
   pi := Real.pi
   ofInt i := (i : ℝ)
   toInt a := if 0 ≤ a then ⌊a⌋ else ⌈a⌉
